@@ -59,6 +59,7 @@ RealTextConfigs ==
      skip |-> sk, script |-> s] :
       nest \in [1..n -> {1, 2}], sk \in SUBSET (1..n), s \in RealScripts}
    : n \in Ns}
+NoConfigs == {}
 InitOnly == Init /\ [][FALSE]_vars
 
 (* behaviour export: one line per configuration with the expected consumer log (evaluated in the initial states) *)
